@@ -27,6 +27,12 @@ theorem createTable_core (slack : Nat → Nat) (s : Pkg) (tabs : List Table) (hF
   | some k => simp [hce] at h
   | none =>
   simp only [hce] at h
+  cases hroom : catalogRoom s name cols with
+  | err k => simp [hroom] at h
+  | panic w => simp [hroom] at h
+  | ok u =>
+  cases u
+  simp only [hroom] at h
   have hf := createError_facts s name cols hce
   have hvn := hf.validName
   simp only [Table.isValidName, Bool.and_eq_true] at hvn
